@@ -84,7 +84,8 @@ func validateFunc(rv reflect.Value) error {
 	errs := []error{}
 	if rv.Type().NumIn() < 1 {
 		errs = append(errs, errMissingArgs)
-	} else if rv.Type().In(0) != reflect.TypeOf(system.Collection{}) {
+	} else if rv.Type().In(0) != reflect.TypeOf(system.Collection{}) || rv.Type().IsVariadic() {
+		// (a variadic parameter list is not a fixed one: its last parameter is a slice no argument can match)
 		errs = append(errs, errInvalidParams)
 	}
 	if rv.Type().NumOut() != 2 || rv.Type().Out(0) != reflect.TypeOf(system.Collection{}) || rv.Type().Out(1).Name() != "error" {
